@@ -10,11 +10,13 @@ ID = "C18"
 TECHNIQUE = "property-based testing (Hypothesis token streams + exhaustive permutations) against a sorted-permutation oracle and a permutation-invariance metamorphic relation"
 RULE = ("Hypothesis-generated walker-format token streams whose Start/Empty tags carry attribute dicts over "
         "(namespace|None, local) keys with deliberate local-name collisions across namespaces, in arbitrary insertion "
-        "order; plus exhaustive enumeration of all insertion orders of fixed key sets of size <= 6. "
+        "order; plus exhaustive enumeration of all insertion orders of fixed key sets of size <= 6; plus a serializer-level clause: trees parsed from generated tags with 0-5 "
+        "un-namespaced attributes (meta declarations included) are rendered by HTMLSerializer(alphabetical_attributes=True) x {quoting, omission, minimisation, solidus, strip_whitespace, "
+        "inject_meta_charset, sanitize} x output encoding, the reference lexer reads the output and every start tag's attribute names must be in code-point order. "
         "Oracle: output items == input items sorted by (ns or '', local), same multiset, other tokens untouched, "
         "F(perm(x)) == F(x). Non-trivial = some tag has >= 2 attributes and either its incoming order differs from "
         "the sorted order or two keys share a local name; distinct = distinct (key lists in incoming order) signature.")
-ASSUMPTIONS = ["attribute namespaces are None or non-empty strings (what walkers emit; Lint asserts the same)",
+ASSUMPTIONS = ["attribute namespaces are None or strings; no two attributes of one tag have the same sort key ((None, x) and ('', x) together are not generated: they tie)",
                "attrs arrive as a dict keyed by (namespace, local) tuples (treewalkers.base contract)"]
 SHRINK = {"tokens": "list"}
 
@@ -47,6 +49,8 @@ def build(tokens_case):
 
 
 def check_case(case):
+    if case.get("kind") == "serializer":
+        return check_serializer_case(case)
     toks = build(case["tokens"])
     before = copy.deepcopy(toks)
     try:
@@ -98,10 +102,12 @@ def check_case(case):
 
 
 # ---------------------------------------------------------------------------
-_ns = st.sampled_from(NS) | st.text(min_size=1, max_size=4)
+# the empty string is a string namespace too (Lint would reject it, the filter accepts it); it sorts like None, so uniqueness is by the *sort key*:
+# two attributes that tie would make the order-independence clause undecidable
+_ns = st.sampled_from(NS) | st.sampled_from(NS + [""]) | st.text(min_size=0, max_size=4)
 _local = st.sampled_from(LOCALS) | st.text(min_size=1, max_size=4)
 _val = st.text(max_size=5)
-_attrs = st.lists(st.tuples(_ns, _local, _val), max_size=8, unique_by=lambda t: (t[0], t[1]))
+_attrs = st.lists(st.tuples(_ns, _local, _val), max_size=8, unique_by=lambda t: (t[0] or "", t[1]))
 _name = st.sampled_from(["a", "div", "svg", "br", "x"])
 _tagns = st.sampled_from([None, "http://www.w3.org/1999/xhtml", "http://www.w3.org/2000/svg"])
 _token = st.one_of(
@@ -119,12 +125,83 @@ _stream = st.lists(_token, min_size=1, max_size=8)
 
 def shards(tier):
     n = 16
-    return [{"kind": "hyp", "n": 1500 if tier == "quick" else 40000} for _ in range(n - 2)] + \
-           [{"kind": "perm", "k": 5 if tier == "quick" else 6, "part": p} for p in range(2)]
+    return [{"kind": "hyp", "n": 1500 if tier == "quick" else 40000} for _ in range(n - 4)] + \
+           [{"kind": "perm", "k": 5 if tier == "quick" else 6, "part": p} for p in range(2)] + \
+           [{"kind": "serializer", "n": 1500 if tier == "quick" else 30000} for _ in range(2)]
+
+
+# --- serializer level: HTMLSerializer(alphabetical_attributes=True) in combination with the other filters it installs -----------------
+S_TAGS = ["p", "div", "span", "a", "img", "input", "meta", "td", "b", "link", "body", "html"]
+S_ATTRS = ["id", "class", "title", "href", "lang", "content", "http-equiv", "charset", "name", "a", "b", "aa", "data-x", "zz", "type", "B", "_", "src", "rel"]
+S_VALS = ["1", "content-type", "Content-Type", "text/html; charset=x", "x y", "", "utf-8", "v"]
+S_OPTS = ["quote_attr_values", "omit_optional_tags", "minimize_boolean_attributes", "use_trailing_solidus", "strip_whitespace", "inject_meta_charset", "escape_lt_in_attrs", "sanitize"]
+
+
+def decode_ser_case(data):
+    from vf.gen.soup import Dec
+    dec = Dec(data)
+    parts = []
+    if dec.below(3) == 0:
+        parts.append("<!DOCTYPE html>")
+    for _ in range(1 + dec.below(6)):
+        tag = dec.pick(S_TAGS)
+        names = []
+        for _ in range(dec.below(6)):
+            a = dec.pick(S_ATTRS)
+            if a not in names:
+                names.append(a)
+        parts.append("<%s%s>%s" % (tag, "".join(' %s="%s"' % (a, dec.pick(S_VALS)) for a in names), dec.pick(["", "x", " ", "</%s>" % tag])))
+    opts = {"alphabetical_attributes": True}
+    for k in S_OPTS:
+        if k == "quote_attr_values":
+            opts[k] = dec.pick(["legacy", "spec", "always"])
+        else:
+            opts[k] = bool(dec.below(2))
+    return {"kind": "serializer", "text": "".join(parts), "walker": dec.pick(["etree", "dom"]), "opts": opts, "encoding": dec.pick([None, "utf-8", "ascii", "koi8-r"])}
+
+
+def check_serializer_case(case):
+    """every start tag the reference lexer reads in the output has its attribute names in code-point order (all attributes here are un-namespaced)"""
+    import warnings
+    from html5lib.serializer import HTMLSerializer
+    from vf import h5
+    from vf.ref.tokenizer import RefTokenizer, normalize_newlines
+    tree, _ = h5.parse(case["text"], builder=case["walker"], full_tree=True)
+    with warnings.catch_warnings():
+        warnings.simplefilter("ignore")
+        ser = HTMLSerializer(**case["opts"])
+        try:
+            out = ser.render(h5.walk(tree, case["walker"]), case.get("encoding"))
+        except Exception as e:
+            return Verdict("fail", "serializer raised %r for %s" % (e, short(case["text"], 160)), "serializer-exception:" + type(e).__name__, nontrivial=True)
+    if case.get("encoding"):
+        out = out.decode(case["encoding"])
+    tok = RefTokenizer(normalize_newlines(out))
+    n_multi = 0
+    while True:
+        t = tok.next_token()
+        if t[0] == "eof":
+            break
+        if t[0] == "start":
+            names = [a[0] for a in t[2]]
+            if len(names) >= 2:
+                n_multi += 1
+            if names != sorted(names):
+                return Verdict("fail", "alphabetical_attributes=True wrote <%s> with attributes %s; options %s encoding %s; input %s; output %s"
+                               % (t[1], names, case["opts"], case.get("encoding"), short(case["text"], 200), short(out, 300)), "serializer-order", nontrivial=True)
+    return Verdict("pass", nontrivial=n_multi > 0, sig=sig64(out))
 
 
 def run_shard(desc, seed, tier):
     acc = Acc()
+    if desc["kind"] == "serializer":
+        from vf.gen.soup import sized_binary
+
+        def fn(data):
+            case = decode_ser_case(data)
+            acc.add(case, check_case(case))
+        drive(sized_binary(8, 70), fn, desc["n"], seed)
+        return acc
     if desc["kind"] == "hyp":
         def fn(tokens):
             case = {"tokens": tokens}
